@@ -504,6 +504,9 @@ impl Env for Inner {
             let kind = if to.port() == 0 { io::ErrorKind::InvalidInput } else { io::ErrorKind::PermissionDenied };
             return Err(io::Error::new(kind, "simulated: invalid destination"));
         }
+        // what Linux does with the unspecified destination 0.0.0.0:P: it is delivered to the local host,
+        // and a reply then comes from a concrete address of this host
+        let to = if to.ip().is_unspecified() { SocketAddrV4::new(*src.ip(), to.port()) } else { to };
         st.transmit(Some(host), src, to, buf.into(), 0);
         Ok(buf.len())
     }
